@@ -20,6 +20,10 @@ MinOf(S) == CHOOSE r \in S : \A s \in S : r <= s
 RECURSIVE SetToSortSeq(_)
 SetToSortSeq(S) == IF S = {} THEN <<>> ELSE LET m == MinOf(S) IN <<m>> \o SetToSortSeq(S \ {m})
 
+\* The Secret / ConfigMap drivers return records in the order the API server lists them: by NAME, i.e. the
+\* revision numbers compare as decimal STRINGS ("1" < "10" < "12" < "2" < "7"). Good for revisions below 100.
+LexKey(r) == IF r < 10 THEN r * 100 ELSE (r \div 10) * 100 + (r % 10) + 1
+
 (* ----- manifests -------------------------------------------------------- *)
 
 \* abstract manifest of a chart: resource id -> [kind, f1, f2, pol]
